@@ -1826,7 +1826,7 @@ func (nm *NodeMachine) CheckCrashImage(k int, before, after Snap) error {
 	var werr error
 	if expectOK && img.Miner != nil && img.Cons != nil {
 		// the restarted node's own procedure: the start of the real miner loop (a plain Walk on HEAD)
-		werr = img.MinerStartSync(2 * time.Second)
+		werr = img.MinerStartSync(20 * time.Second) // generous: only a start-up that never gets there waits this long
 		if werr == nil && !bytes.Equal(img.State.GetLatestBlockid(), src.Blocks[tip].ID) {
 			werr = fmt.Errorf("the miner loop asks for its turn while the state machine is not at the ledger tip")
 		}
